@@ -30,7 +30,11 @@ Reject(prop, clause, detail) ==
   /\ PrintT(<<"REJECT", tid, prop, clause, detail>>)
   /\ UNCHANGED <<tid, step>>
 
-NS == Len(O.states)
+(* O.sampled: the state space is too large to list; O.states are the rows O.srows (1-based) of a space of      *)
+(* O.nstates rows, and O.nrow[k] is the row of the real space that the successor's index points at.            *)
+NS == O.nstates
+NL == Len(O.states)
+RowOf(i) == IF O.sampled THEN O.srows[i] ELSE i
 NA == Len(O.actions)
 NE == Len(O.events)
 Triple(k) ==          \* k in 1..NS*NA*NE, event index fastest
@@ -53,14 +57,16 @@ EventsOK ==
 
 CheckSpaces ==
   /\ step = "spaces" /\ verdict = "running"
-  /\ IF ~SpaceOK(StateMins(P), StateMaxs(P), O.states)
+  /\ IF O.sampled /\ ~SampledSpaceOK(StateMins(P), StateMaxs(P), O.nstates, O.srows, O.states)
+       THEN Reject("C14", "state space (sampled rows of a large space): size or a sampled row differs from the documented box in row-major order", NS)
+     ELSE IF ~O.sampled /\ ~(SpaceOK(StateMins(P), StateMaxs(P), O.states) /\ NS = NL)
        THEN Reject("C14", "state space is not the documented box in row-major order (size, duplicates or order)", NS)
      ELSE IF ~SpaceOK(ActionMins(P), ActionMaxs(P), O.actions)
        THEN Reject("C14", "action space is not the documented one", NA)
      ELSE IF ~EventsOK THEN Reject("C14", "event space is not the documented one (size, range or duplicates)", NE)
-     ELSE IF \E i \in 1..NS : O.sidx[i] # i - 1
+     ELSE IF \E i \in 1..NL : O.sidx[i] # RowOf(i) - 1
        THEN Reject("C14", "index function does not map a listed state to its own row",
-                   LET i == CHOOSE i \in 1..NS : O.sidx[i] # i - 1 IN <<O.states[i], O.sidx[i]>>)
+                   LET i == CHOOSE i \in 1..NL : O.sidx[i] # RowOf(i) - 1 IN <<O.states[i], O.sidx[i]>>)
      ELSE step' = "transitions" /\ UNCHANGED <<tid, verdict>>
 
 RewardOf(comp) == SumSeq([k \in 1..Len(comp) |-> O.coef[k] * comp[k]])
@@ -69,7 +75,9 @@ BadClosure(k) ==
   /\ O.ppos[k]
   /\ ~(/\ InStateSpace(P, O.next[k])
        /\ O.nidx[k] >= 0 /\ O.nidx[k] < NS
-       /\ O.states[O.nidx[k] + 1] = O.next[k])
+       /\ IF O.sampled
+            THEN O.nrow[k] = O.next[k] /\ RowVector(StateMins(P), StateMaxs(P), O.nidx[k] + 1) = O.next[k]
+            ELSE O.states[O.nidx[k] + 1] = O.next[k])
 
 BadDynamics(k) ==
   LET t == Triple(k)
@@ -84,7 +92,7 @@ Describe(k) == LET t == Triple(k) IN <<O.states[t.si], O.actions[t.ai], O.events
 
 CheckTransitions ==
   /\ step = "transitions" /\ verdict = "running"
-  /\ LET n == NS * NA * NE
+  /\ LET n == NL * NA * NE
          badc == IF Len(O.next) = n THEN {k \in 1..n : BadClosure(k)} ELSE {}
          badd == IF Len(O.next) = n THEN {k \in 1..n : BadDynamics(k)} ELSE {}
      IN IF Len(O.next) # n THEN Reject("C15", "table size", Len(O.next))
